@@ -688,3 +688,166 @@ func ruleC11h(c *Ctx) []*report.Result {
 	r.Check(len(cleared) >= 1, "(*internal/rfmt.pp).catchPanic / reset assigns something", pos, "the reset helper assigns no field")
 	return []*report.Result{r}
 }
+
+func init() { register("C17.f", ruleC17f) }
+
+// ruleC17f: registration is effective. The error hook and the safe-type
+// registry are package variables of the formatting core; what the user hands
+// to the public Register* function must be what ends up in them.
+func ruleC17f(c *Ctx) []*report.Result {
+	r := report.NewResult("C17.f", "registration is effective: each registry of the formatting core (the func-typed hook variable called by the dispatcher, the map-typed variables looked up while printing) has a writer that stores its own parameter (hook = fn; registry[t] = true), and the root package exposes that writer through an exported function that calls it unconditionally with its own parameter", 5)
+	hm := c.P.Func("internal/rfmt", "(*pp).handleMethods")
+	type registry struct {
+		g    *ssa.Global
+		kind string
+	}
+	var regs []registry
+	if hm != nil {
+		for _, s := range c.userCallSites(hm) {
+			if s.hook {
+				if u, ok := s.call.Common().Value.(*ssa.UnOp); ok {
+					if g, ok := u.X.(*ssa.Global); ok {
+						regs = append(regs, registry{g, "hook"})
+					}
+				}
+			}
+		}
+	}
+	seen := map[*ssa.Global]bool{}
+	for _, fn := range c.P.ModuleFunctions() {
+		if recvNamed(fn) != tPP {
+			continue
+		}
+		for _, b := range fn.Blocks {
+			for _, ins := range b.Instrs {
+				if lk, ok := ins.(*ssa.Lookup); ok {
+					if u, ok := lk.X.(*ssa.UnOp); ok {
+						if g, ok := u.X.(*ssa.Global); ok && !seen[g] && pkgPathOfGlobal(g) == pkgRfmt {
+							if _, isMap := g.Type().(*types.Pointer).Elem().Underlying().(*types.Map); isMap {
+								seen[g] = true
+								regs = append(regs, registry{g, "map"})
+							}
+						}
+					}
+				}
+			}
+		}
+	}
+	if len(regs) < 2 {
+		r.Undecide(fmt.Sprintf("expected the error hook and the safe-type registry, found %d registries", len(regs)))
+		return []*report.Result{r}
+	}
+	root := c.P.SSAPkg("")
+	for _, rg := range regs {
+		name := "rfmt." + rg.g.Name()
+		type writer struct {
+			fn    *ssa.Function
+			param int
+		}
+		var writers []writer
+		for _, fn := range c.P.ModuleFunctions() {
+			if fn.Synthetic != "" || fn.Name() == "init" {
+				continue
+			}
+			for _, b := range fn.Blocks {
+				for _, ins := range b.Instrs {
+					var stored ssa.Value
+					var site ssa.Instruction
+					switch x := ins.(type) {
+					case *ssa.Store:
+						if x.Addr == ssa.Value(rg.g) && rg.kind == "hook" {
+							stored, site = x.Val, x
+						}
+					case *ssa.MapUpdate:
+						if u, ok := x.Map.(*ssa.UnOp); ok && u.X == ssa.Value(rg.g) {
+							stored, site = x.Key, x
+							cst, isC := x.Value.(*ssa.Const)
+							r.Check(isC && cst.Value != nil && cst.Value.String() == "true", shortFn(fn.String())+" / marks the type", c.P.Pos(x.Pos()), "the registry entry must be set to true")
+						}
+					}
+					if site == nil {
+						continue
+					}
+					p, isP := stripConvAll(stripIface(stored)).(*ssa.Parameter)
+					if !isP {
+						r.Fail(shortFn(fn.String())+" / stores its parameter into "+rg.g.Name(), c.P.Pos(site.Pos()), "what is stored into the registry is not the function's parameter: the user's registration is lost or replaced", nil, "")
+						continue
+					}
+					uncond := site.Block() == fn.Blocks[0] || site.Block().Dominates(lastReturnBlock(fn))
+					if !uncond {
+						// skipping the store is fine when the entry is already
+						// there: the branch that bypasses it tests registry[param]
+						if d := site.Block().Idom(); d != nil {
+							if iff, ok := d.Instrs[len(d.Instrs)-1].(*ssa.If); ok {
+								cond := iff.Cond
+								if u, ok := cond.(*ssa.UnOp); ok && u.Op == token.NOT {
+									cond = u.X
+								}
+								if lk, ok := cond.(*ssa.Lookup); ok {
+									if u, ok := lk.X.(*ssa.UnOp); ok && u.X == ssa.Value(rg.g) && stripConvAll(stripIface(lk.Index)) == ssa.Value(p) {
+										uncond = true
+									}
+								}
+							}
+						}
+					}
+					r.Check(uncond, shortFn(fn.String())+" / registers unconditionally", c.P.Pos(site.Pos()), "the store into the registry does not lie on every path through the function")
+					writers = append(writers, writer{fn, paramIndex(fn, p)})
+				}
+			}
+		}
+		if len(writers) == 0 {
+			r.Fail(name+" / has a writer", c.P.Pos(rg.g.Pos()), "no function stores into this registry: nothing can be registered", nil, "")
+			continue
+		}
+		// exposure by the root package
+		for _, w := range writers {
+			exposed := false
+			for _, mem := range sortedMembers(root) {
+				f, ok := mem.(*ssa.Function)
+				if !ok || f.Object() == nil || !f.Object().Exported() || f.Blocks == nil {
+					continue
+				}
+				fl := flatten(f, func(g *ssa.Function) bool { return g.Pkg == f.Pkg })
+				if !fl.straight {
+					continue
+				}
+				for _, ci := range fl.calls {
+					if _, isCall := ci.(*ssa.Call); !isCall {
+						continue
+					}
+					if ci.Common().StaticCallee() == w.fn {
+						a := fl.args(ci)
+						if w.param < len(a) {
+							if p, ok := fl.deep(a[w.param]).(*ssa.Parameter); ok && p.Parent() == f {
+								exposed = true
+							}
+						}
+					}
+				}
+			}
+			r.Check(exposed, "redact / exposes "+shortFn(w.fn.String()), c.P.Pos(w.fn.Pos()), "no exported function of the root package calls "+w.fn.Name()+" unconditionally with its own parameter: a registration made through the public API has no effect")
+		}
+	}
+	return []*report.Result{r}
+}
+
+// lastReturnBlock: the block of the (single) return of fn, or its entry.
+func lastReturnBlock(fn *ssa.Function) *ssa.BasicBlock {
+	var rb *ssa.BasicBlock
+	for _, b := range fn.Blocks {
+		if b == fn.Recover || len(b.Instrs) == 0 {
+			continue
+		}
+		if _, ok := b.Instrs[len(b.Instrs)-1].(*ssa.Return); ok {
+			if rb != nil {
+				return fn.Blocks[0]
+			}
+			rb = b
+		}
+	}
+	if rb == nil {
+		return fn.Blocks[0]
+	}
+	return rb
+}
